@@ -1160,7 +1160,12 @@ impl Gc {
         D::Value: Sized + Any,
     {
         let size = def.size();
-        let needed = self.allocated_memory.saturating_add(size);
+        // The object occupies its header as well (see `AllocPtr::size`), so the header must be
+        // part of what is compared against the limit
+        let needed = self
+            .allocated_memory
+            .saturating_add(size)
+            .saturating_add(GcHeader::value_offset());
         if needed >= self.memory_limit {
             return Err(Error::OutOfMemory {
                 limit: self.memory_limit,
